@@ -755,8 +755,19 @@ func (c *Ctx) applyContractAt(s *State, fr *Frame, site string, pos token.Pos, f
 		c.assume(s, simplifyNot(calleeCond)) // execution continues past the call
 	}
 	old := s.snapshot()
+	// the callee may allocate and store what it allocated: bump the allocation base before the havoc, so that the
+	// havocked heap versions are known to hold references below the new base; callee-fresh objects lie in [preAlloc, newBase)
+	preAlloc := c.bind(s, "allocpre", SInt, c.allocTerm(s))
+	nb := c.freshConst(s, "allocC", SInt)
+	c.assume(s, fmt.Sprintf("(>= %s %s)", nb, preAlloc))
+	var mods0 []modEntry
 	if fc.ModGiven {
-		mods := c.evalMods(env, fc.Modifies)
+		mods0 = c.evalMods(env, fc.Modifies)
+	}
+	s.allocBase = nb
+	s.allocCnt = 0
+	if fc.ModGiven {
+		mods := mods0
 		c.havocMods(s, mods, "")
 	} else if fc.Pure {
 		// no effects
@@ -790,12 +801,6 @@ func (c *Ctx) applyContractAt(s *State, fr *Frame, site string, pos token.Pos, f
 	} else {
 		res = c.freshResults(s, "r."+sanitize(calleeName), sig.Results())
 	}
-	// the callee may have allocated: bump the allocation base; callee-fresh objects lie in [preAlloc, newBase)
-	preAlloc := c.bind(s, "allocpre", SInt, c.allocTerm(s))
-	nb := c.freshConst(s, "allocC", SInt)
-	c.assume(s, fmt.Sprintf("(>= %s %s)", nb, preAlloc))
-	s.allocBase = nb
-	s.allocCnt = 0
 	env2 := c.newSpecEnv(s, fr)
 	env2.freshLo, env2.freshHi = preAlloc, nb
 	env2.pkg, env2.pc = env.pkg, env.pc
@@ -1547,7 +1552,9 @@ func (c *Ctx) rangeInit(s *State, fr *Frame, x *ssa.Range) {
 	}
 	m := c.val(s, x.X).(Scalar)
 	ks := c.mapKeySort(mt)
-	fr.regs[x] = RangeIterV{Map: m.T, MT: mt, Visited: fmt.Sprintf("((as const (Array %s Bool)) false)", ks), Ty: x.Type()}
+	empty := fmt.Sprintf("((as const (Array %s Bool)) false)", ks)
+	fr.regs[x] = RangeIterV{Map: m.T, MT: mt, Visited: empty, Ty: x.Type()}
+	fr.src["visited"] = GhostSetV{Term: empty}
 }
 
 // rangeNext: the next key of a map range is an arbitrary present key that was not yielded before; the range ends
